@@ -200,3 +200,7 @@ def run(ctx):
                                    'state the live filter keeps between frames is written %s' % ('only after the stream-id comparison' if okst else
                                    'BEFORE / WITHOUT the stream-id comparison: frames of other threads on the shared channel move it, and this thread\'s own later frames (lower seq) are then dropped or repeated'), line=st.get('ln'))
             ctx.ob('C06.5', f, 'filter-state-scanned', True, 'the live filter of the thread handler keeps %d piece(s) of state between frames' % nst, line=f.line)
+    # what a late subscriber is caught up from — the guarded history buffers — only grows (C03.7 under this property's id):
+    # a buffer that is emptied, even for a moment, hands a subscriber that attaches right then no history at all
+    from .c03 import c037
+    c037(ctx, rid='C06.7')
